@@ -29,7 +29,7 @@ TECHNIQUE = ("Lean 4 proof over a hand transcription of KeyTable / StylesheetRoo
              "translators regenerate the source-dependent facts (FunctionKey guard, the two getNodeSetByKey overloads, the "
              "context list of `use`); three-way correspondence run (real key() / in-transformation brute force / compiled "
              "Lean model), also on the ASan+UBSan build in the thorough tier")
-LEVEL_TEXT = ("Machine-checked for all inputs (Props/C15.lean, 25 theorems, and key_spec_c09 in C15/C09Instance.lean): the transcribed KeyTable constructor walk tests every "
+LEVEL_TEXT = ("Machine-checked for all inputs (Props/C15.lean, 28 theorems, and key_spec_c09 in C15/C09Instance.lean): the transcribed KeyTable constructor walk tests every "
               "node and attribute exactly once in document order; the table it builds answers getNodeSetByKey(name, value) with "
               "the document-order list of the nodes that match a declaration of that name and have the value among their use "
               "values (XSLT 1.0 12.2), null exactly for undeclared names; with strip-aware matching the answer is the "
@@ -63,8 +63,10 @@ LEVEL_NOTE = ("Trusted: Lean kernel; axioms propext/Classical.choice/Quot.sound 
               "(C02's evaluator is not imported); generate-id() injective. Covered by the correspondence run only: positional "
               "predicates, namespace nodes as use values, rejection of key() inside match/use, sort-key / with-param / AVT call "
               "sites, namespace nodes as context nodes, node-set arguments and predicates spanning documents. Not modelled: node lists spanning several documents in addNodeInDocOrder (C12), template-level evaluation "
-              "order. No known finding is open; four defects found by this check were repaired in /repo (44426a2, 64b58da, "
-              "4c14898, 381eb10).")
+              "order. Four defects found by this check were repaired in /repo (44426a2, 64b58da, 4c14898, 381eb10); one is "
+              "open with a proposed fix: a prefixed key name held by reference in the shared scratch QName is overwritten by "
+              "QName-resolving use/match expressions during the table build (known entry C15-prefixed-name-overwritten; "
+              "theorems key_name_independent_of_use_evaluation[_partial], key_name_overwritten_counterexample).")
 DESIGN_REF = "DESIGN.md section 5, C15; design/C15.md"
 
 THEOREMS = [
@@ -84,6 +86,9 @@ THEOREMS = [
     "XalanModel.Props.C15.key_result_of_context_document",
     "XalanModel.Props.C15.key_multi_context_spec",
     "XalanModel.Props.C15.key_call_spec",
+    "XalanModel.Props.C15.key_name_independent_of_use_evaluation",
+    "XalanModel.Props.C15.key_name_independent_of_use_evaluation_partial",
+    "XalanModel.Props.C15.key_name_overwritten_counterexample",
     "XalanModel.Props.C15.key_nodeset_union",
     "XalanModel.Props.C15.key_nodeset_union_partial",
     "XalanModel.Props.C15.key_nodeset_union_counterexample",
@@ -268,6 +273,16 @@ def judge(case, res):
     if iv.startswith("ERR"):
         msg = unhex(iv.split(" ", 1)[1]) if " " in iv else ""
         if not expect_err:
+            m = re.search(r"There is no xsl:key instruction with the expanded name '([^']*)'", msg)
+            names = set(c["name"] for c in calls)
+            if (m and m.group(1) not in names and any(n.startswith("{") for n in names)
+                    and any(G.resolves_qname(d[2]) or G.resolves_qname(d[3]) for d in case["decls"])):
+                # the UnknownKey error names a QName no key() call asked for: a prefixed key name was resolved into the
+                # execution context's shared scratch QName, kept by reference, and overwritten while the key table was built
+                # by a use/match expression that resolves another QName (format-number's decimal-format name,
+                # function-available / element-available)
+                return [("violation", "key.prefixed-name-overwritten-during-table-build[%s]" % m.group(1),
+                         "key() with a prefixed name failed: " + msg[:200])]
             return [("violation", "key.unexpected-error", "transformation failed: " + msg[:200])]
         if "xsl:key" not in msg:
             probs.append(("corr", "error-text", "expected the unknown-key error, got: " + msg[:200]))
